@@ -253,6 +253,63 @@ fn nest_doc(t: &mut simcore::Tape, fl: Flavour) -> (Vec<u8>, usize) {
     (s.into_bytes(), depth)
 }
 
+/// A syntactically valid document written as raw text around structured random IRIs: these
+/// never went through the toolkit's own validator, so a disagreement between it and the parser
+/// (the parser accepts, the validator rejects) shows up on a *valid* document.
+fn iri_stress_doc(t: &mut simcore::Tape, fl: Flavour) -> Vec<u8> {
+    let n = t.range(1, 3);
+    let mut s = String::new();
+    let xml_esc = |i: &str| i.replace('&', "&amp;").replace('\'', "&apos;").replace('<', "&lt;");
+    match fl {
+        Flavour::Xml => {
+            s.push_str("<rdf:RDF xmlns:rdf=\"http://www.w3.org/1999/02/22-rdf-syntax-ns#\">");
+            for _ in 0..n {
+                let (sub, ns, obj) = (draw_iri(t), draw_iri(t), draw_iri(t));
+                s.push_str(&format!(
+                    "<rdf:Description rdf:about=\"{}\"><n:p xmlns:n=\"{}\" rdf:resource=\"{}\"/><n:q xmlns:n=\"{}\" rdf:datatype=\"{}\">v</n:q></rdf:Description>",
+                    xml_esc(&sub), xml_esc(&ns), xml_esc(&obj), xml_esc(&ns), xml_esc(&draw_iri(t))
+                ));
+            }
+            s.push_str("</rdf:RDF>");
+        }
+        Flavour::JsonLd => {
+            s.push('[');
+            for k in 0..n {
+                if k > 0 {
+                    s.push(',');
+                }
+                s.push_str(&format!(
+                    "{{\"@id\":\"{}\",\"{}\":[{{\"@id\":\"{}\"}},{{\"@value\":\"v\",\"@type\":\"{}\"}}]}}",
+                    draw_iri(t), draw_iri(t), draw_iri(t), draw_iri(t)
+                ));
+            }
+            s.push(']');
+        }
+        Flavour::Nq | Flavour::Gnq => {
+            for _ in 0..n {
+                s.push_str(&format!("<{}> <{}> <{}> <{}> .\n", draw_iri(t), draw_iri(t), draw_iri(t), draw_iri(t)));
+                s.push_str(&format!("<{}> <{}> \"v\"^^<{}> .\n", draw_iri(t), draw_iri(t), draw_iri(t)));
+            }
+        }
+        Flavour::Nt => {
+            for _ in 0..n {
+                s.push_str(&format!("<{}> <{}> <{}> .\n", draw_iri(t), draw_iri(t), draw_iri(t)));
+                s.push_str(&format!("<{}> <{}> \"v\"^^<{}> .\n", draw_iri(t), draw_iri(t), draw_iri(t)));
+            }
+        }
+        _ => {
+            s.push_str(&format!("@prefix p: <{}> .\n", draw_iri(t)));
+            for _ in 0..n {
+                s.push_str(&format!("<{}> <{}> <{}> , \"v\"^^<{}> ; p: p:x .\n", draw_iri(t), draw_iri(t), draw_iri(t), draw_iri(t)));
+            }
+            if fl != Flavour::Turtle {
+                s.push_str(&format!("GRAPH <{}> {{ <{}> <{}> <{}> }}\n", draw_iri(t), draw_iri(t), draw_iri(t), draw_iri(t)));
+            }
+        }
+    }
+    s.into_bytes()
+}
+
 fn long_token_doc(t: &mut simcore::Tape, fl: Flavour) -> Vec<u8> {
     let n = [1000usize, 9000, 70_000][t.below(3)];
     let run: String = match t.below(4) {
@@ -365,6 +422,7 @@ fn base_document2(ctx: &mut Ctx, fl: Flavour, hs: u64) -> (Vec<u8>, &'static str
                     (d, "deep_nesting", depth)
                 }
                 2 | 3 => (long_token_doc(&mut ctx.tape, fl), "long_token", 0),
+                4..=6 => (iri_stress_doc(&mut ctx.tape, fl), "iri_stress", 0),
                 _ => {
                     let c = corpus_for(fl);
                     (c[ctx.tape.below(c.len())].as_bytes().to_vec(), "corpus", 0)
@@ -545,6 +603,7 @@ pub fn run_c08(ctx: &mut Ctx) -> Verdict {
         "corpus" => "doc_from_corpus",
         "foreign_corpus" => "doc_of_another_syntax",
         "deep_nesting" => "doc_deep_nesting",
+        "iri_stress" => "doc_valid_text_around_random_iris",
         _ => "doc_long_token",
     });
     ctx.sig(origin);
@@ -553,6 +612,12 @@ pub fn run_c08(ctx: &mut Ctx) -> Verdict {
     if ctx.faults.len() > before {
         ctx.fault_in_op = true;
     }
+    let n_corruptions = ctx.faults.len() - before;
+    simcore::driver::set_panic_context(&format!(
+        "parser={} origin={origin} {}",
+        fl.name(),
+        if n_corruptions == 0 && matches!(origin, "serialized" | "corpus" | "iri_stress") { "doc=valid" } else { "doc=hostile" }
+    ));
     let kinds: Vec<&'static str> = ctx.faults.keys().copied().collect();
     for k in kinds {
         ctx.sig(k);
@@ -595,7 +660,12 @@ pub fn run_c08(ctx: &mut Ctx) -> Verdict {
     if !bad.is_empty() {
         return Err(Violation::new(
             format!("invalid_term_yielded/{}", fl.name()),
-            format!("{}\nstored bytes:\n{}", bad.join("\n"), excerpt(&doc)),
+            format!(
+                "{} [{}]\nstored bytes:\n{}",
+                bad.join("\n"),
+                if n_corruptions == 0 && matches!(origin, "serialized" | "corpus" | "iri_stress") { "doc=valid" } else { "doc=hostile" },
+                excerpt(&doc)
+            ),
         ));
     }
 
